@@ -106,6 +106,10 @@ ThmLateMeta == (CheckProperty /\ log # <<>>) =>
     IN  LateMetaEffect(b, lab, [enc |-> ev.e, conf |-> ev.c, with |-> ev.e, pc |-> IF ev.r THEN "restart" ELSE "parsing"])
         /\ ((ev.bc = "tentative" /\ GetEncoding(lab) = "none") => (ev.e = ev.be /\ ev.c = "tentative" /\ ~ev.r))
 ThmRestartOnce == st.restarts <= 1 /\ (st.restarts = 1 => st.conf = "certain")
+\* 3b. every declaration of the document is met during tree construction, so a parse that ends with a tentative
+\*     encoding has met no declaration that names an encoding (UTF-16 counts)
+ThmNoDeclLeft == (CheckProperty /\ st.pc = "done" /\ st.conf = "tentative") =>
+    \A k \in 1..Len(decls) : ~Declares(AttrsOf(decls[k]), {})
 \* 4. a certain encoding is never changed by document content (action property)
 ThmCertainStable == [][CertainStable(st, st')]_vars
 ThmExport == (Export /\ st.pc = "done") =>
